@@ -183,10 +183,64 @@ def run(ctx):
             break
         agree += 1
     conc._true_cache.clear(); conc._false_cache.clear()
+    # ---- floating point: comparisons are not reflexive (NaN); a True answer must survive every sampled assignment
+    import math, operator
+    fvals = [float("nan"), 0.0, -0.0, 1.0, -1.0, float("inf"), float("-inf"), 5e-324, 2.5, -2.5]
+    nfp = 0
+    for it in range(ctx.pick(150, 2500)):
+        sort = rng.choice([claripy.FSORT_DOUBLE, claripy.FSORT_FLOAT])
+        f, g = claripy.FPS("tf", sort, explicit_name=True), claripy.FPS("tg", sort, explicit_name=True)
+
+        def operand():
+            r_ = rng.random()
+            if r_ < 0.4:
+                return f, (lambda a, b: a)
+            if r_ < 0.7:
+                return g, (lambda a, b: b)
+            v = rng.choice(fvals[:7] + [2.5])
+            return claripy.FPV(v, sort), (lambda a, b, v=v: v)
+
+        def atom():
+            name, py = rng.choice([("fpEQ", operator.eq), ("fpNEQ", operator.ne), ("fpLT", operator.lt), ("fpLEQ", operator.le), ("fpGT", operator.gt),
+                                   ("fpGEQ", operator.ge), ("==", operator.eq), ("!=", operator.ne)])
+            (l, lf) = operand()
+            (r, rf) = (l, lf) if rng.random() < 0.5 else operand()
+            if name == "==":
+                a_ = l == r
+            elif name == "!=":
+                a_ = l != r
+            else:
+                a_ = getattr(claripy, name)(l, r)
+            return a_, (lambda a, b: py(lf(a, b), rf(a, b)))
+        k_ = rng.random()
+        if k_ < 0.5:
+            e, ef = atom()
+        elif k_ < 0.65:
+            e1, f1 = atom(); e, ef = claripy.Not(e1), (lambda a, b: not f1(a, b))
+        else:
+            (e1, f1), (e2, f2) = atom(), atom()
+            if rng.random() < 0.5:
+                e, ef = claripy.And(e1, e2), (lambda a, b: f1(a, b) and f2(a, b))
+            else:
+                e, ef = claripy.Or(e1, e2), (lambda a, b: f1(a, b) or f2(a, b))
+        if not isinstance(e, claripy.ast.Bool):
+            continue
+        ctx.count()
+        nfp += 1
+        truth = {bool(ef(a, b)) for a in fvals for b in fvals}
+        for kind, fns in (("T", (claripy.is_true, lambda z: z.is_true(), claripy.Solver().is_true)), ("F", (claripy.is_false, lambda z: z.is_false(), claripy.Solver().is_false))):
+            for fn in fns:
+                if fn(e) and ((kind == "T" and False in truth) or (kind == "F" and True in truth)):
+                    cex = next((a, b) for a in fvals for b in fvals if bool(ef(a, b)) == (kind != "T"))
+                    ctx.violation("C10/%s/fp-claimed-but-refuted" % ("is_true" if kind == "T" else "is_false"),
+                                  "%s(%r) returned True but tf=%r, tg=%r refutes it" % ("is_true" if kind == "T" else "is_false", e, cex[0], cex[1]),
+                                  {"expr": repr(e), "kind": kind, "tf": repr(cex[0]), "tg": repr(cex[1])})
+                    break
+    stats["fp_expressions"] = nfp
     # ---- solver level: True only if it holds in every model of the constraints (+ extra constraints)
     for cls in (claripy.Solver, claripy.SolverCacheless, claripy.SolverComposite, claripy.SolverHybrid, claripy.SolverReplacement, claripy.SolverVSA,
                 HybridApprox):
-        for it in range(ctx.pick(12, 150)):
+        for it in range(ctx.pick(60, 600)):
             w = 3
             x, y = claripy.BVS("sx", w, explicit_name=True), claripy.BVS("sy", w, explicit_name=True)
             atoms = [claripy.ULT(x, rng.randrange(8)), x == rng.randrange(8), x + y == rng.randrange(8), claripy.UGE(y, rng.randrange(8)),
@@ -199,23 +253,51 @@ def run(ctx):
             extra = rng.sample(atoms, rng.choice([0, 0, 1]))
             if cls in APPROX and not APPROX_WITH_CONSTRAINTS:
                 cons, extra = [], []
-            s = cls()
+            # a history over a tree of solvers: add / branch / query, every True answer checked against the models of THAT solver
+            family = [(cls(), [])]
+            hist = []
             try:
-                s.add(cons)
-                models = [(a, b) for a in range(8) for b in range(8)
-                          if all(E.ev(E.from_ast(c), {"sx": a, "sy": b})[1] for c in cons + extra)]
-                for q in rng.sample(atoms, 3) + [claripy.Not(rng.choice(atoms))]:
+                family[0][0].add(cons)
+                family[0][1].extend(cons)
+                hist.append(("add", 0, [repr(c) for c in cons]))
+                queries = rng.sample(atoms, 3) + [claripy.Not(rng.choice(atoms))]
+                for step in range(rng.choice([4, 8, 14])):
+                    r_ = rng.random()
+                    i_ = rng.randrange(len(family))
+                    s, scons = family[i_]
+                    if r_ < 0.2 and len(family) < 5:
+                        family.append((s.branch(), list(scons)))
+                        hist.append(("branch", i_))
+                        continue
+                    if r_ < 0.4 and not (cls in APPROX and not APPROX_WITH_CONSTRAINTS):
+                        c_ = rng.choice(atoms) if rng.random() < 0.6 else rng.choice([x, y]) == rng.randrange(8)    # equalities pin variables (replacements)
+                        s.add(c_)
+                        scons.append(c_)
+                        hist.append(("add", i_, [repr(c_)]))
+                        continue
+                    q = rng.choice(queries)
+                    ex_ = extra if rng.random() < 0.5 else []
+                    models = [(a, b) for a in range(8) for b in range(8)
+                              if all(E.ev(E.from_ast(c), {"sx": a, "sy": b})[1] for c in scons + ex_)]
                     ctx.count()
                     qt = E.from_ast(q)
                     vals = {E.ev(qt, {"sx": a, "sy": b})[1] for a, b in models}
                     for kind, fn in (("T", s.is_true), ("F", s.is_false)):
-                        ans = fn(q, extra_constraints=tuple(extra))
+                        ans = fn(q, extra_constraints=tuple(ex_))
+                        hist.append(("is_true" if kind == "T" else "is_false", i_, repr(q), [repr(c) for c in ex_], ans))
                         if ans and ((kind == "T" and False in vals) or (kind == "F" and True in vals)):
                             ctx.violation("C10/%s.%s/not-entailed" % (cls.__name__, "is_true" if kind == "T" else "is_false"),
-                                          "%s(constraints=%s).%s(%s, extra=%s) is True but a model disagrees" % (
-                                              cls.__name__, cons, "is_true" if kind == "T" else "is_false", q, extra),
-                                          {"solver": cls.__name__, "constraints": [repr(c) for c in cons], "query": repr(q), "extra": [repr(c) for c in extra]})
+                                          "%s(constraints=%s).%s(%s, extra=%s) is True but a model disagrees (solver %d of a history with %d branches)" % (
+                                              cls.__name__, scons, "is_true" if kind == "T" else "is_false", q, ex_, i_, len(family) - 1),
+                                          {"solver": cls.__name__, "constraints": [repr(c) for c in scons], "query": repr(q), "extra": [repr(c) for c in ex_],
+                                           "history": hist})
             except claripy.errors.ClaripyError:
+                continue
+            except (AttributeError, TypeError, ValueError) as ex:
+                # a crash while adding/querying is not a wrong truth value; it is noted (and passed on to the family that owns the code)
+                stats["solver_history_crashes"] += 1
+                if stats["solver_history_crashes"] <= 3:
+                    ctx.notes.append("%s history crashed with %r after %r" % (cls.__name__, ex, hist[-1:]))
                 continue
     ctx.cov["traces_validated_against_impl"] = agree
     ctx.cov["input_distribution"] = {"histories": len(lines), "queries": sum(len(w_) for w_ in wants), **dict(stats)}
